@@ -29,7 +29,14 @@ RNext == /\ sc.kind = "none"
          /\ \E w \in BOOLEAN, a \in {Never, 2, 6}, ok \in BOOLEAN :
               LET r == [wantNack |-> w, ackAt |-> a, seqOk |-> ok] IN
               sc' = [kind |-> "relay", r |-> r, out |-> RelayOutcome(r)]
-PSpec == PInit /\ [][PNext \/ RNext]_sc
+QNext == /\ sc.kind = "none"
+         /\ \E pa \in {"udp", "tcp"}, nm \in {"self", "other", "none"}, sr \in {"given", "absent"} :
+              LET p == [path |-> pa, named |-> nm, src |-> sr] IN
+              sc' = [kind |-> "resp", p |-> p, out |-> RespOutcome(p)]
+PSpec == PInit /\ [][PNext \/ RNext \/ QNext]_sc
+
+\* a ping that names another node is never acknowledged; any other ping exactly once
+Resp_Identity == sc.kind = "resp" => (sc.out.acks = (IF sc.p.named = "other" THEN 0 ELSE 1))
 
 C19_OneNack == sc.kind = "relay" => (sc.out.nacks \in {0, 1} /\ (sc.out.nacks = 1 <=> (sc.r.wantNack /\ sc.out.relayedAcks = 0)))
 
